@@ -44,13 +44,19 @@ def run(ctx):
         cmd += ["--spec", spec]
     rc, out = sh(cmd, env=ctx.env, timeout=3000)
     ctx.log(out.strip().split("\n")[-1] if out.strip() else "explorer silent")
+    def last_lang(path):
+        last = "?"
+        if os.path.exists(path):
+            for line in open(path, errors="replace"):
+                if line.startswith("lang "):
+                    last = line.split()[1]
+        return last
     if rc != 0:
-        ctx.oblige("run:explorer", False, out[-800:])
-        return ctx.finish()
+        # the real code crashed inside the explorer (Rust API calls); keep going with what was written
+        ctx.oblige("run:explorer", False, "exit %d while working on language %s: %s" % (rc, last_lang(lst), out[-400:]))
     rc, out = sh("%s %s > %s" % (cunit, lst, cout), env=ctx.env, timeout=3000)
     if rc != 0:
-        ctx.oblige("run:cunit_c16", False, out[-800:])
-        return ctx.finish()
+        ctx.oblige("run:cunit_c16", False, "exit %d after language %s: %s" % (rc, last_lang(cout), out[-400:]))
     specs, feats, tokens, skips = {}, {}, {}, []
     for line in open(ops):
         if line.startswith("spec "):
